@@ -1,7 +1,7 @@
 #!/bin/bash
 # tools/try_seed.sh <Cxx> <A|B> [tier]  - maintainer tool: try a seeded change from /tmp/wt/<Cxx>/_seed/<X>
 # against the check of that property, in the scratch worktree (never /repo).
-id=$1; x=$2; tier=${3:-quick}; wt=/tmp/wt/$id; sd=$wt/_seed/$x
+id=$1; x=$2; tier=${3:-quick}; wt=${WT_ROOT:-/tmp/wt}/$id; sd=$wt/_seed/$x
 cd $wt || exit 2
 git checkout -q -- . ; git apply $sd/patch.diff || { echo "patch does not apply"; exit 2; }
 PYTHONPATH=$wt/src /venv/bin/python $sd/demo.py > $sd/demo_with.log 2>&1; echo "demo with change: exit $?"
